@@ -1,6 +1,6 @@
 SPECIFICATION Spec
 CONSTANTS
-  MaxDepth = 2
+  MaxDepth = 1
 CONSTRAINT Export
 INVARIANT LawRelocate
 INVARIANT LawPrefix
